@@ -340,7 +340,13 @@ class IPPO(MultiAgentRLAlgorithm):
         """
         # Get dict of form {"agent_id" : [1, 0, 0, 0]...} etc
         action_masks = {homo_id: [] for homo_id in self.shared_agent_ids}
-        for agent_id, info in infos.items():
+        # Masks are stacked in the order of self.agent_ids (the order in which the observations
+        # of a group are batched), whatever the key order of the info dictionary
+        ordered_ids = [a for a in self.agent_ids if a in infos] + [
+            a for a in infos if a not in self.agent_ids
+        ]
+        for agent_id in ordered_ids:
+            info = infos[agent_id]
             if isinstance(info, dict):
                 homo_id = self.get_homo_id(agent_id)
                 action_masks[homo_id].append(
